@@ -74,7 +74,7 @@ PROPS["C01"] = {
     "lean_modules": ["BurrowVerif.Props.C01"],
     "props_files": ["BurrowVerif/Props/C01.lean"],
     "anchors": ["core/internal/storage/inmemory.go", "core/protocol/storage.go"],
-    "streams": [dict(_STORAGE_STREAM, keys={"lag", "bro"})],
+    "streams": [dict(_STORAGE_STREAM, keys={"lag", "bro", "kept"})],
     "rule": _STORAGE_RULE,
     "trusted": [
         "offsets outside [0, 2^63) make the int64 subtraction wrap; the theorems carry that hypothesis and wrap_witness shows why; the model reproduces the wrap (toU64/wrap64) so the correspondence also covers it",
@@ -86,7 +86,7 @@ PROPS["C02"] = {
     "lean_modules": ["BurrowVerif.Props.C02"],
     "props_files": ["BurrowVerif/Props/C02.lean"],
     "anchors": ["core/internal/storage/inmemory.go"],
-    "streams": [dict(_STORAGE_STREAM, keys={"win"})],
+    "streams": [dict(_STORAGE_STREAM, keys={"win", "kept"})],
     "rule": _STORAGE_RULE,
     "trusted": [
         "container/ring is modelled as a fixed circular array addressed relative to the pointer (Model/Ring.lean), validated differentially",
@@ -209,7 +209,7 @@ PROPS["C10"] = {
     "anchors": ["core/internal/storage/inmemory.go", "core/internal/consumer/kafka_client.go", "core/internal/consumer/kafka_zk_client.go", "core/internal/notifier/coordinator.go"],
     "streams": [dict(_STORAGE_STREAM, keys={"list", "win", "own"}),
                 dict(_DECODE_STREAM, keys={"reqs"}),
-                dict(_NOTIFIER_STREAM, keys={"notes"}),
+                dict(_NOTIFIER_STREAM, keys={"notes", "lists"}),
                 {"name": "zkreader", "retry_transient": True, "keys": None, "trivial": r"^(ok|fw=-)$", "hist_keys": [],
                  "scale": {"quick": 1, "thorough": 4}, "seeds": {"quick": 1, "thorough": 1}}],
     "rule": ("four streams, each with allow/deny regexp pairs (none, either, both, overlapping): " + _STORAGE_RULE + " | " + _DECODE_RULE + " | " + _NOTIFIER_RULE +
@@ -345,8 +345,9 @@ PROPS["C08"] = {
     "props_files": ["BurrowVerif/Props/C08.lean"],
     "anchors": ["core/internal/storage/inmemory.go", "core/internal/storage/coordinator.go"],
     "streams": [{"name": "conc", "keys": None, "trivial": r"^ok$", "hist_keys": [],
-                 "scale": {"quick": 1, "thorough": 8}, "seeds": {"quick": 1, "thorough": 3}}],
-    "rule": ("stream conc: the storage module's REAL workers and main loop (real Start with 2-8 workers, queue depth 1); requests enter through the module's channel from 2-16 concurrent lanes. "
+                 "scale": {"quick": 1, "thorough": 8}, "seeds": {"quick": 1, "thorough": 3}},
+                dict(_STORAGE_STREAM, keys={"kept"})],
+    "rule": ("stream storage (sequential histories, see C01): only the `kept` observation is judged here — every consumer detail reply handed out since init still renders as it did when it was handed out, after everything that happened later (a reply is a value: it shares nothing mutable with the store). stream conc: the storage module's REAL workers and main loop (real Start with 2-8 workers, queue depth 1); requests enter through the module's channel from 2-16 concurrent lanes. "
              "'ordered' batches: every group belongs to one lane and no lane writes broker state, so the outcome is determined by per-group submission order — every consumer-fetch reply of the batch is "
              "compared with the model run lane after lane; 'chaos' batches (150-400 requests per lane): broker updates with changing partition counts, topic deletion and re-creation, commits, owner "
              "updates, group deletions and every fetch type on the same two topics — judged on the implementation: the process survives (a panic or a fatal 'concurrent map' error kills the harness and is "
